@@ -39,6 +39,11 @@ TABLE_SPECIALS = [
     ">> prep time: 5 min\n>> cook time: 1h\n>> time: 10 min\nBoil @water{1%l}.\n",
     "---\ntitle: x\n---\n>> author: me\n>> servings: 2\n@a{1}\n",
     ">> author: me\n>> servings: 2\n@a{1}\n",
+    ">> [mode]: components\n@a{1%g}\n@b\n>> [mode]: steps\nMix @a and @b.\n",
+    ">> [define]: ingredients\n@salt{1%tsp}\n>> [define]: all\nAdd @salt.\n",
+    ">> [duplicate]: reference\n@a{1%g} and @a{2%g}\n",
+    ">> [duplicate]: new\n@a{1%g} and @a{2%g}\n",
+    ">> [mode]: text\nplain\n",
     "@eggs{2} @&eggs{1} @milk{1%l} @&milk{200%ml} @&milk{1%cup}\n",
 ]
 SHORT = ["", "@", "@a", "@a{", "@a{}", "@a{1}", "@a{1%", "#p{}", "~{1%h}", "~t{1}", ">> a: b", ">>", "---", "---\n---\n",
@@ -173,22 +178,28 @@ def run(rep, tier, seed):
         pools.append((cfg, pool))
 
     keys = list(universe)
-    ref = common.run_lines(exe, [case_line(*k) for k in keys], env={"HIST_MODE": "fresh"}, tag="c18fresh")
+    # the reference: ONE PROCESS PER CALL (new hash seeds, nobody has forced the fraction table, no earlier
+    # call of any kind in that process)
+    ref = common.run_lines(exe, [case_line(*k) for k in keys], env={"HIST_MODE": "spawn"}, shards=16, tag="c18spawn")
     for k, d in zip(keys, ref):
         universe[k] = d
-    # a subset again with ONE PROCESS PER CALL (new hash seeds, nobody has forced the fraction table)
-    sub = [k for k in keys if k[1] in TABLE_SPECIALS] + rng.sample(keys, min(len(keys), 400 if quick else 4000))
-    sub = list(dict.fromkeys(sub))
-    spawned = common.run_lines(exe, [case_line(*k) for k in sub], env={"HIST_MODE": "spawn"}, shards=16, tag="c18spawn")
+    # fresh converter + parser per call, but in a process that keeps running other calls (16 such processes):
+    # separates state held by a parser value from state held by the process
+    fresh = common.run_lines(exe, [case_line(*k) for k in keys], env={"HIST_MODE": "fresh"}, tag="c18fresh")
     n_proc_mismatch = 0
-    for k, d in zip(sub, spawned):
+    for k, d in zip(keys, fresh):
         if d != universe[k]:
             n_proc_mismatch += 1
-            line = case_line(*k)
-            hits.append((k[1], "two fresh processes return different results for op %s" % k[0],
-                         {"mode": "process", "case": line, "input": k[1], "input_hex": hx(k[1]), "op": k[0],
-                          "ext": k[2][0], "conv": k[2][1]}))
-    stats["fresh_process_per_call"] = len(sub)
+            if n_proc_mismatch <= 20:
+                line = case_line(*k)
+                hits.append((k[1], "op %s with a new parser in a process that ran other calls before differs from the "
+                                   "same call alone in a new process" % k[0],
+                             {"mode": "process", "case": line, "input": k[1], "input_hex": hx(k[1]), "op": k[0],
+                              "ext": k[2][0], "conv": k[2][1],
+                              "note": "the earlier calls of that process are the lines before this one in a 16-way split "
+                                      "of the reference set; replay compares spawn/spawn/fresh on the single call"}))
+    stats["fresh_process_per_call"] = len(keys)
+    stats["fresh_parser_shared_process_calls"] = len(keys)
 
     def check_history(h, what):
         out = run_file(exe, [case_line(*k) for k in h], "hist")
@@ -303,7 +314,7 @@ def run(rep, tier, seed):
                           "LazyLock<FractionLookupTable> (src/quantity.rs 633-634), probed hash maps (convert/mod.rs "
                           "246-256, event_consumer.rs 106-111, 444-500); the parse function is a Section variable; "
                           "memory-level interleavings, Send/Sync soundness and std::sync::LazyLock are not modelled")
-    calls = stats["repeat_calls"] + stats["history_calls"] + thread_parses + len(sub)
+    calls = stats["repeat_calls"] + stats["history_calls"] + thread_parses + len(keys)
     rep.coverage.update({
         "evaluations": calls + len(keys), "distinct_nontrivial": distinct_results,
         "rule": "exploration in support of the proof, not a proof about schedules: (i) every input 3x in a row on one "
@@ -311,10 +322,11 @@ def run(rep, tier, seed):
                 "parse / metadata-only / parse+scale+convert mixed; half on a single parser, half hopping between %d "
                 "parsers); (iii) %d rounds (each its own process) of %d threads sharing one Arc<CooklangParser> behind a "
                 "barrier, %d calls per thread over a common pool that includes scale+convert, first call of every thread "
-                "a scale+convert; every result compared with a fresh converter+parser in another process, %d of them "
-                "with one process per call; inputs: generated recipes, one-token mutations, short random strings, fixed "
+                "a scale+convert; every result compared with the same call made alone by a fresh "
+                "converter+parser in a process of its own (%d reference processes), and those again with fresh parsers "
+                "in 16 long-running processes; inputs: generated recipes, one-token mutations, short random strings, fixed "
                 "specials; distinct_nontrivial = distinct canonical results among the reference evaluations"
-                % (len(rep_hist), n_hist, hist_len, len(CONFIGS), len(jobs), n_threads, iters, len(sub)),
+                % (len(rep_hist), n_hist, hist_len, len(CONFIGS), len(jobs), n_threads, iters, len(keys)),
         "exhaustive": False,
         "inputs": len(inputs), "input_sources": gen_counts, "reference_evaluations": len(keys),
         "configurations": ["ext=%d conv=%s" % c for c in CONFIGS],
